@@ -676,7 +676,11 @@ func namePointers(opts *FlattenOpts) error {
 	for k, ref := range opts.Spec.references.allRefs {
 		debugLog("name pointers: %q => %#v", k, ref)
 		if path.Dir(ref.String()) == definitionsPath {
-			// this a ref to a top-level definition: ok
+			// this a ref to a top-level definition: ok, provided there is such a definition
+			if _, _, err := ref.GetPointer().Get(opts.Swagger()); err != nil && !opts.ContinueOnError {
+				return ErrAtKey(k, err)
+			}
+
 			continue
 		}
 
